@@ -616,8 +616,14 @@ where
                         )));
                     }
                     Some(content) => {
-                        // TODO check length
-                        io::copy(&mut content.take(*length), dest)?;
+                        let copied = io::copy(&mut content.take(*length), dest)?;
+                        if copied != *length {
+                            return Err(io::Error::new(
+                                io::ErrorKind::UnexpectedEof,
+                                "Data source shorter than the announced length",
+                            )
+                            .into());
+                        }
                     }
                 }
                 Ok(())
